@@ -102,11 +102,11 @@ func (sa *sharedAnalysis) computeSharedTypes() {
 	for _, f := range c.AllFns {
 		eachInstr(f, func(i ssa.Instruction) {
 			if cc := callCommon(i); cc != nil {
-				switch calleeName(cc) {
-				case "(*sync/atomic.Value).Store":
-					if len(cc.Args) == 2 {
-						visit(stripIface(cc.Args[1]).Type(), 0)
+				if kind, _, val, ok := atomicOp(cc); ok && (kind == "store" || kind == "swap" || kind == "cas") && val != nil {
+					for _, pv := range publishedValue(val) {
+						visit(pv.Type(), 0)
 					}
+					visit(stripIface(val).Type(), 0)
 				}
 			}
 		})
@@ -334,6 +334,9 @@ func (sa *sharedAnalysis) fresh(v ssa.Value, in *ssa.Function, depth int) bool {
 		n := calleeName(&x.Call)
 		if sharedReturning[n] {
 			return false
+		}
+		if kind, _, _, ok := atomicOp(&x.Call); ok && (kind == "load" || kind == "swap") {
+			return false // whatever spelling (atomic.Value, atomic.Pointer[T]): the loaded object is shared
 		}
 		if sc := x.Call.StaticCallee(); sc != nil {
 			sc = unwrap(sc)
